@@ -755,9 +755,49 @@ type c08runner struct {
 	shifts map[int]int
 }
 
+// c08installExit: a logrus Fatal inside the implementation unwinds like a panic (and is judged as one) instead of
+// ending the process.
+func c08installExit() {
+	log.StandardLogger().ExitFunc = func(code int) { panic(fmt.Sprintf("log.Fatal (exit status %d)", code)) }
+}
+
+// guard: the calls made around PEAlign / BuildQualityConsensus (arena and sequence construction, accessors) belong to the
+// tree under test too: a panic there is a verdict on the tree (the case is skipped), not the end of the shard.  The
+// harness's own self-checks are passed on.
+func (x *c08runner) guard(site string, mk func() c08case, f func()) {
+	defer func() {
+		if e := recover(); e != nil {
+			msg := fmt.Sprint(e)
+			if strings.HasPrefix(msg, "harness self-check") {
+				panic(e)
+			}
+			rc := mk() // (built only here: evalSingle is the hot path)
+			desc := ""
+			if len(rc.Calls) > 0 {
+				desc = c08desc(&rc.Calls[len(rc.Calls)-1]) + " :: "
+			}
+			x.r.Violate(site+"/panic-around-the-aligner-call", desc+"panics outside PEAlign / BuildQualityConsensus (arena or sequence construction, accessors): "+msg, rc)
+		}
+	}()
+	f()
+}
+
 // evalSingle runs one call on a fresh arena and judges it.
 func (x *c08runner) evalSingle(kind string, c c08call, sa, sb *obiseq.BioSequence, orc *c08oracle, u string, a0, b0 int) {
+	x.guard("PEAlign/"+c08mode(&c), func() c08case { return c08case{Kind: kind, Calls: []c08call{c}, U: u, A0: a0, B0: b0} }, func() {
+		x.evalSingle1(kind, c, sa, sb, orc, u, a0, b0)
+	})
+}
+
+func (x *c08runner) evalSingle1(kind string, c c08call, sa, sb *obiseq.BioSequence, orc *c08oracle, u string, a0, b0 int) {
 	r := x.r
+	// what is submitted (vacuity guards: counted whatever the implementation answers)
+	if u != "" {
+		r.Count("error_free_fragment_calls_"+c08mode(&c), 1)
+		if len(u) > 24 {
+			r.Count("error_free_fragment_over_24_calls_"+c08mode(&c), 1)
+		}
+	}
 	if sa == nil {
 		sa, sb = c08mkseq("A", c.A, c.QA), c08mkseq("B", c.B, c.QB)
 	}
@@ -794,6 +834,10 @@ func (x *c08runner) evalSingle(kind string, c c08call, sa, sb *obiseq.BioSequenc
 // evalScheme: PELeftAlign / PERightAlign with NilPEAlignArena (the arena is made by the callee).  The reported
 // score must be the optimum of that scheme in the independent DP and the score along the returned path.
 func (x *c08runner) evalScheme(kind string, c c08call, sa, sb *obiseq.BioSequence, orc *c08oracle) {
+	x.guard("PELeftAlign|PERightAlign(nil-arena)", func() c08case { return c08case{Kind: "scheme", Calls: []c08call{c}} }, func() { x.evalScheme1(kind, c, sa, sb, orc) })
+}
+
+func (x *c08runner) evalScheme1(kind string, c c08call, sa, sb *obiseq.BioSequence, orc *c08oracle) {
 	r := x.r
 	qa, qb := c08bytes(c.QA), c08bytes(c.QB)
 	if c08overflowClass(&c) {
@@ -1046,7 +1090,12 @@ func c08sameRes(a, b *c08res) string {
 
 // evalHistory: all calls on ONE arena and shift buffer; each result must equal the fresh-arena result.
 func (x *c08runner) evalHistory(calls []c08call, fresh []*c08res) {
+	x.guard("arena-reuse", func() c08case { return c08case{Kind: "history", Calls: calls} }, func() { x.evalHistory1(calls, fresh) })
+}
+
+func (x *c08runner) evalHistory1(calls []c08call, fresh []*c08res) {
 	r := x.r
+	r.Count("histories_submitted", 1)
 	n := 0
 	for _, c := range calls {
 		n = c08max(n, c08max(len(c.A), len(c.B)))
@@ -1080,6 +1129,7 @@ func (x *c08runner) evalHistory(calls []c08call, fresh []*c08res) {
 func TestVerifC08(t *testing.T) {
 	log.SetOutput(io.Discard)
 	log.SetLevel(log.PanicLevel)
+	c08installExit()
 	r := verifkit.New("C08")
 	defer r.Write()
 	if !_InitializedDnaScore {
@@ -1354,7 +1404,14 @@ func TestVerifC08(t *testing.T) {
 			r.Bound("iii_call_subset", len(sub))
 			fresh := make([]*c08res, len(sub))
 			for i, c := range sub {
-				w := c08run(c, c08mkseq("A", c.A, c.QA), c08mkseq("B", c.B, c.QB), MakePEAlignArena(len(c.A), len(c.B)), &map[int]int{}, true)
+				// control run on a fresh arena (c08run turns a panic of the aligner into a result; a panic of the arena /
+				// sequence construction gives a "panicked" reference too: the history on the reused arena is then
+				// expected to fail the same way, and evalSingle reports the call itself)
+				w := c08res{Panicked: true, PanicMsg: "arena or sequence construction panics"}
+				func() {
+					defer func() { recover() }()
+					w = c08run(c, c08mkseq("A", c.A, c.QA), c08mkseq("B", c.B, c.QB), MakePEAlignArena(len(c.A), len(c.B)), &map[int]int{}, true)
+				}()
 				fresh[i] = &w
 			}
 			n := len(sub)
@@ -1508,21 +1565,21 @@ func TestVerifC08(t *testing.T) {
 		r.Note("development run restricted to sections %s", only)
 		return
 	}
+	// guards on what the harness submitted.  The counters that need an answer of the implementation (valid_paths,
+	// exact_paths_optimal, single_scheme_optimal, fast_dp_branch, fast_identical_branch, paths_with_inner_indel_fast,
+	// columns_with_quality_winner, reassembly_demanded_*, histories) are reported in the evidence, not required: a tree
+	// that answers otherwise is judged by the oracle, not by the guard.
 	r.RequireNonVacuous("indel_variants_delA")
 	r.RequireNonVacuous("indel_variants_insB")
 	r.RequireNonVacuous("long_geometries_with_a_read_over_24")
-	r.RequireNonVacuous("single_scheme_optimal")
-	r.RequireNonVacuous("paths_with_inner_indel_fast")
-	r.RequireNonVacuous("reassembly_demanded_fragment_over_24_exact")
-	r.RequireNonVacuous("reassembly_demanded_fragment_over_24_fast")
-	r.RequireNonVacuous("valid_paths")
-	r.RequireNonVacuous("fast_dp_branch")
-	r.RequireNonVacuous("fast_identical_branch")
-	r.RequireNonVacuous("exact_paths_optimal")
-	r.RequireNonVacuous("reassembly_demanded_exact")
-	r.RequireNonVacuous("reassembly_demanded_fast")
-	r.RequireNonVacuous("columns_with_quality_winner")
-	r.RequireNonVacuous("histories")
+	r.RequireNonVacuous("calls_single_scheme_nil_arena")
+	r.RequireNonVacuous("calls_exact")
+	r.RequireNonVacuous("calls_fast")
+	r.RequireNonVacuous("error_free_fragment_calls_exact")
+	r.RequireNonVacuous("error_free_fragment_calls_fast")
+	r.RequireNonVacuous("error_free_fragment_over_24_calls_exact")
+	r.RequireNonVacuous("error_free_fragment_over_24_calls_fast")
+	r.RequireNonVacuous("histories_submitted")
 	r.Sample(c08case{Kind: "geom", U: srcs[0][:16], A0: 0, B0: 6, Calls: []c08call{{A: srcs[0][:12], B: srcs[0][6:16],
 		QA: c08quals("alt", 12, false), QB: c08quals("alt", 10, true), Fast: true, Rel: true, Delta: 2, Gap: 2, Scale: 1}}})
 }
